@@ -5,12 +5,12 @@ from . import treeshared as TS
 PROP = "C05"
 RULE = ("tree bandits T_HOO/HCT/VHCT stand-alone (80%) and as base learners inside POO/GPO/PCT/VPCT (20%), all "
         "partitions, d=1..3, n up to 600 (quick) / 1500 (thorough), (nu, rho, c, delta, bound) log-uniform in the "
-        "documented ranges subject to c1*delta <= 1/2, 19 reward families incl. ties and 1e6+noise; after EVERY round "
+        "documented ranges 19 reward families incl. ties and 1e6+noise; after EVERY round "
         "every U is compared with the published formula recomputed from the ledger, every non-root B with the "
         "recursion, and the pulled cell's root path with the greedy/threshold rule; non-trivial = >= 50 rounds, tree "
         "depth >= 2 and >= 200 U-values compared")
 ASSUMPTIONS = [
-    "HCT/VHCT parameter band c1*delta <= 1/2 (outside it the code's min(1/2,.) for thresholds and min(1,.) for widths disagree with each other and the published width is ambiguous): not judged there",
+    "HCT/VHCT thresholds are judged in the rounds whose t+ satisfies c1*delta/t+ <= 1/2, where the code's clamp min(1/2,.) and the published min(1,.) coincide (c1*delta > 1/2 only excludes t+ = 1, i.e. the first round); U-values are judged always",
     "the root's B-value is never refreshed nor read by the code and is exempt; the root is exempt from the threshold rule (tau_0 = 0)",
     "two admissible conventions for t+ of the pulled cell's refresh (round counter before/after its increment)",
     "threshold comparisons within rel. 1e-9 of an integer boundary accept both outcomes; arg-max ties within rel. 1e-9",
